@@ -46,21 +46,25 @@ def run(ctx):
     for i in range(n):
         # --- ignored namespaces: option on G  vs  no option on G minus the ignored predicates (class membership from G)
         g = deep_graph(rng)
-        cfg = gen.gen_cfg(rng, g, presentation=False, allow_cap=False, allow_ignore=False)
+        cfg = gen.gen_cfg(rng, g, presentation=False, allow_cap=False, allow_ignore=False, allow_or=True)
         cfg['report'] = 'mixed'
         cfg['disable_comments'] = False
         ns = rng.choice(NS_SETS)
         cfg_ign = dict(cfg, ignore_ns=ns)
         keep = [(s, p, o) for s, p, o in g if p == cfg['inst_prop'] or not any(direct_child(p, x) for x in ns)]
         if any(direct_child(cfg['inst_prop'], x) for x in ns):
+            # the instantiation property itself is ignored: class membership must still be read from the full graph; the
+            # option run then equals the run on the filtered input minus the constraints on the instantiation property
+            # (empty shapes are kept in both runs, so that losing those constraints cannot cascade)
+            cfg_ign = dict(cfg_ign, remove_empty=False)
             kinds.append(('ignore-instprop', len(cases)))
-            cases += [(g, cfg_ign)]
+            cases += [(g, cfg_ign), (keep, dict(cfg, remove_empty=False))]
         else:
             kinds.append(('ignore', len(cases)))
             cases += [(g, cfg_ign), (keep, cfg)]
         # --- cap
         g2 = gen.gen_graph(rng)
-        cfg2 = gen.gen_cfg(rng, g2, presentation=False, allow_cap=False, allow_ignore=False)
+        cfg2 = gen.gen_cfg(rng, g2, presentation=False, allow_cap=False, allow_ignore=False, allow_or=True)
         cfg2['report'] = 'mixed'
         cfg2['disable_comments'] = False
         sizes = gen.class_sizes(g2, cfg2['inst_prop'])
@@ -87,6 +91,19 @@ def run(ctx):
                              "with_option": repr(a)[:800], "on_filtered_input": repr(b)[:800], **pipeline.case_json(g, cfg_i)})
             nontriv += len(cases[i + 1][0]) < len(g)
             stats["deeper_predicates_kept"] += sum(1 for s, p, o in cases[i + 1][0] if '/deep/er/' in p or ('/deep/' in p and EX in cfg_i['ignore_ns'] and EX + 'deep/' not in cfg_i['ignore_ns']))
+        elif kd[0] == 'ignore-instprop':
+            i = kd[1]
+            (g, cfg_i), r1, r2 = cases[i], ir[i], ir[i + 1]
+            stats["ignore_instprop_pairs"] = stats.get("ignore_instprop_pairs", 0) + 1
+            if r1[0] != 'ok' or r2[0] != 'ok':
+                viol.append({"what": "implementation gave no result", "outcomes": [list(r1[:3]), list(r2[:3])], **pipeline.case_json(g, cfg_i)})
+                continue
+            strip = lambda sig: [(lab, n_, [st for st in sts if st[1] != cfg_i['inst_prop']]) for lab, n_, sts in sig]
+            a, b = strip(shape_sig(r1[1])), strip(shape_sig(r2[1]))
+            if a != b:
+                viol.append({"what": "ignoring the namespace of the instantiation property changes more than the constraints on that property "
+                                     "(class membership must still come from the full graph)",
+                             "with_option": repr(a)[:800], "on_filtered_input_minus_instantiation_constraints": repr(b)[:800], **pipeline.case_json(g, cfg_i)})
         elif kd[0] == 'cap':
             i, k, mx = kd[1], kd[2], kd[3]
             (g, cfg_c), r1, r2 = cases[i], ir[i], ir[i + 1]
